@@ -1,6 +1,6 @@
 (* C14 — model-vs-implementation comparison and boolean form of the property, evaluated with
    vm_compute on the cases the harness writes. Definitions only. *)
-From V Require Import Base.Common Model.C14_Backup Model.C14_Peerstore.
+From V Require Import Base.Common Model.C14_Backup Model.C14_Peerstore Model.C14_State.
 Local Open Scope N_scope.
 
 (* ------------------------------------------------------------------ *)
@@ -160,7 +160,111 @@ Definition ps_save_check (id self1 self2 : N) (pre : list (N * list transport * 
    then [] else [(id, 13, 0)]).
 
 (* ------------------------------------------------------------------ *)
+(* Pinsets: dsstate Marshal/Unmarshal, raft SnapshotSave/OfflineState/LastStateRaw, cmdutils export/import *)
+Definition pinv_eqb (a b : pinv) : bool := N.eqb (fst a) (fst b) && N.eqb (snd a) (snd b).
+Definition entry_eqb (a b : entry) : bool := N.eqb (fst a) (fst b) && pinv_eqb (snd a) (snd b).
+Definition entries_eqb (a b : list entry) : bool := list_eqb entry_eqb a b.
+Definition oentries_eqb (a : list entry) (b : option (list entry)) : bool :=
+  match b with Some l => entries_eqb a l | None => false end.
+
+(* the pinsets of a case are numbered; a table gives the (cid-sorted) entries of each number *)
+Definition ptable := list (N * list entry).
+Definition pinset_of (t : ptable) (i : N) : list entry := match aget i t with Some l => l | None => [] end.
+Definition id_of (t : ptable) (es : list entry) : N :=
+  match find (fun x => entries_eqb (snd x) es) t with Some x => fst x | None => 999999 end.
+
+(* dsstate: Marshal, then Unmarshal onto an empty store *)
+Definition marshal_check (id : N) (pins : list entry) (obs : option (list entry)) : list (N * N * N) :=
+  (if oentries_eqb (sorted_entries (unmarshal (marshal (fun x => x) pins) [])) obs then [] else [(id, 1, 0)]) ++
+  (if oentries_eqb pins obs then [] else [(id, 14, 0)]).
+
+(* raft: a history of SnapshotSave / CleanupRaft / bare data folders on one directory; after every operation the
+   listing (folder payloads resolved by reading them offline) and what OfflineState / LastStateRaw return *)
+Inductive sop := OSave (i : N) | OClean | OBare (marker : N) | OStart (* a real peer is started on the data folder, then shut down *).
+
+Definition snap_listing (t : ptable) (w : nat) (d : dir snapshot) : listing :=
+  map (fun f => match f with
+                | Some (m, Some es) => Some (m, Some (id_of t (sorted_entries (unmarshal es []))))
+                | Some (m, None) => Some (m, None)
+                | None => None end) (live d :: map (olds d) (seq O w)).
+
+Definition from_listing (t : ptable) (l : listing) : dir snapshot :=
+  let conv := fun f : option fold_t => match f with
+                       | Some (m, Some i) => Some (m, Some (pinset_of t i))
+                       | Some (m, None) => Some (m, None)
+                       | None => None end in
+  mk_dir (conv (hd None l)) (fun i => conv (to_olds l i)).
+
+Definition sop_model (keep : nat) (t : ptable) (op : sop) (d : dir snapshot) : dir snapshot :=
+  match op with
+  | OSave i => snapshot_save keep (marshal (fun x => x) (pinset_of t i)) d
+  | OClean => cleanup keep d
+  | OBare m => mk_dir (Some (m, None)) (olds d)
+  | OStart => d
+  end.
+
+(* the rotation step an operation implies on the directory, if any *)
+Definition sop_step (op : sop) (before : listing) : option (step N) :=
+  match op, hd None before with
+  | OSave _, Some (m, Some i) => Some (Some (m, Some i), true)
+  | OClean, Some (m, Some i) => Some (Some (m, Some i), true)
+  | _, _ => None
+  end.
+
+Fixpoint snap_check (id : N) (keep : nat) (t : ptable) (before : listing) (ops : list sop)
+         (obs : list (listing * list entry * list entry)) : list (N * N * N) :=
+  match ops, obs with
+  | [], [] => []
+  | op :: ops', (after, off, raw) :: obs' =>
+      let d' := sop_model keep t op (from_listing t before) in
+      (if list_eqb ofold_eqb (snap_listing t (window before) d') after
+          && entries_eqb (sorted_entries (offline_state d' [])) off
+          && entries_eqb (sorted_entries (match last_state_raw d' with Some es => unmarshal es [] | None => [] end)) raw
+       then [] else [(id, 1, 0)]) ++
+      (* saving a pinset as a snapshot and reading it offline reproduces it *)
+      (match op with
+       | OSave i => if entries_eqb off (pinset_of t i) && entries_eqb raw (pinset_of t i) then [] else [(id, 15, 0)]
+       | OStart => match hd None before with
+                   | Some (_, Some i) => if entries_eqb off (pinset_of t i) then [] else [(id, 15, 0)]
+                   | _ => [] end
+       | _ => [] end) ++
+      (* data that held a snapshot stays recoverable as the newest backup, older ones shift *)
+      (match sop_step op before with
+       | Some st => let after' := match op with OSave _ => set_live None after | _ => after end in
+                    if bk_step_okb keep before st after' then [] else [(id, 10, 0)]
+       | None => [] end) ++
+      snap_check id keep t after ops' obs'
+  | _, _ => [(id, 1, 0)]
+  end.
+
+(* cmdutils: export from one place, import in another through a state manager *)
+Definition has_origins (es : list entry) : bool := existsb (fun e => negb (decodable e)) es.
+
+Definition export_check (id : N) (mgr : N) (keep : nat) (t : ptable) (src : N) (dst0 : option N)
+           (exported : list entry) (lines : list jline) (edited : bool)
+           (obs_ok : bool) (obs_after : list entry) (obs_listing : listing) : list (N * N * N) :=
+  let tag := if has_origins exported then 1 else 0 in
+  (* the export holds exactly the source pinset *)
+  (if entries_eqb (sorted_entries exported) (pinset_of t src) then [] else [(id, 1, 0); (id, 16, 0)]) ++
+  (if N.eqb mgr 0 then
+     let d0 := mk_dir (match dst0 with Some i => Some (7, Some (pinset_of t i)) | None => None end) (fun _ => None) in
+     let '(d', ok) := raft_import keep (fun x => x) lines d0 in
+     if Bool.eqb ok obs_ok && entries_eqb (sorted_entries (offline_state d' [])) obs_after
+        && list_eqb ofold_eqb (snap_listing t (Nat.pred (length obs_listing)) d') obs_listing
+     then [] else [(id, 1, 0)]
+   else
+     let '(s', ok) := crdt_import lines (match dst0 with Some i => pinset_of t i | None => [] end) in
+     if Bool.eqb ok obs_ok && entries_eqb (sorted_entries s') obs_after then [] else [(id, 1, 0)]) ++
+  (* export then import reproduces the pinset and replaces whatever was there *)
+  (if edited then [] else
+     if obs_ok && entries_eqb obs_after (pinset_of t src) then [] else [(id, 17, tag)]).
+
+(* ------------------------------------------------------------------ *)
 Inductive payload :=
+| PMarshal (pins : list entry) (obs : option (list entry))
+| PSnap (keep : nat) (t : ptable) (olds0 : listing) (ops : list sop) (obs : list (listing * list entry * list entry))
+| PExport (mgr : N) (keep : nat) (t : ptable) (src : N) (dst0 : option N) (exported : list entry) (lines : list jline)
+          (edited obs_ok : bool) (obs_after : list entry) (obs_listing : listing)
 | PPsFile (self : N) (ls : list line) (query : list N) (obs_load : list (option paddr)) (obs_infos : option (list pinfo))
 | PPsSave (self1 self2 : N) (pre : list (N * list transport * option nat)) (query query2 : list N)
           (obs0 : list pinfo) (obs_lines : list line) (obs_load : list (option paddr)) (obs2 : option (list pinfo))
@@ -172,6 +276,9 @@ Definition check_case (c : case) : list (N * N * N) :=
   let '(id, p) := c in
   match p with
   | PBackup keep olds0 sts obs => bk_check id keep (None :: olds0) [] sts obs
+  | PMarshal pins obs => marshal_check id pins obs
+  | PSnap keep t olds0 ops obs => snap_check id keep t (None :: olds0) ops obs
+  | PExport mgr keep t src dst0 ex ls ed ok aft lst => export_check id mgr keep t src dst0 ex ls ed ok aft lst
   | PPsFile self ls query ol oi => ps_file_check id self ls query ol oi
   | PPsSave s1 s2 pre q q2 o0 ol old o2 => ps_save_check id s1 s2 pre q q2 o0 ol old o2
   end.
